@@ -79,6 +79,20 @@ func (g *gen) routerScript(n int, lostHeavy bool) string {
 	return b.String()
 }
 
+// routerBacklogScript: n routing indications arrive while the application does not read, then it
+// reads them all (and once more)
+func routerBacklogScript(n int) string {
+	b := &sb{head: "rtr 0 8"}
+	for i := 1; i <= n; i++ {
+		b.at(0, fmt.Sprintf("rx rind %d", 5000+i))
+	}
+	for i := 0; i <= n; i++ {
+		b.at(0, "read")
+	}
+	b.at(1, "end")
+	return b.String()
+}
+
 func genOther(g *gen, prop string, budget int, emit func(string)) bool {
 	switch prop {
 	case "C13":
@@ -87,6 +101,8 @@ func genOther(g *gen, prop string, budget int, emit func(string)) bool {
 		}
 	case "C14":
 		emit(g.routerScript(300, true))
+		emit(routerBacklogScript(100))
+		emit(routerBacklogScript(40))
 		for i := 1; i < budget; i++ {
 			emit(g.routerScript(5+g.r.Intn(60), true))
 		}
